@@ -133,6 +133,9 @@ func (x *Unit) run() {
 	lh := x.ghostGet(st, "lockHeld")
 	x.fact(T{fmt.Sprintf("(forall ((a!lk Int)) (! (=> (> (proot a!lk) %s) (= (select %s a!lk) 0)) :pattern ((select %s a!lk))))",
 		alloc0.S, x.u.MapVal(lh.T).S, x.u.MapVal(lh.T).S), SBool})
+	// this call has not released any lock yet
+	lr := x.ghostGet(st, "lockReleased")
+	x.fact(T{fmt.Sprintf("(forall ((a!lr Int)) (! (not (select %s a!lr)) :pattern ((select %s a!lr))))", x.u.MapVal(lr.T).S, x.u.MapVal(lr.T).S), SBool})
 	for k, v := range st.ghost {
 		x.entry.ghost[k] = v
 	}
@@ -363,7 +366,7 @@ func (x *Unit) frameGoals(st *State) (goals []frameGoal, ok bool) {
 	}
 	for _, k := range sortedKeys(st.ghost) {
 		g := st.ghost[k]
-		if k == "now" || k == "syncedWith" || strings.HasPrefix(k, "res:") || strings.HasPrefix(k, "let:") || strings.HasPrefix(k, "calls:") {
+		if k == "now" || k == "syncedWith" || k == "lockReleased" || strings.HasPrefix(k, "res:") || strings.HasPrefix(k, "let:") || strings.HasPrefix(k, "calls:") {
 			continue
 		}
 		want, have := exp.ghost[k]
